@@ -221,6 +221,10 @@ structure Params where
   itself reaches `Wait` and `RemoveAll` on every path (no `return` inside it).  In particular the
   clean-up does not depend on whether the plugin process is still running when `Kill` is called. -/
   killCleanupWheneverRunner : Bool
+  /-- the client keeps its Unix-socket configuration — including the socket directory it created for a custom runner —
+  in a VALUE of its own (`unixSocketCfg UnixSocketConfig`, assigned by copy from `*config.UnixSocketConfig`), not in the
+  caller's struct: two clients configured with one `UnixSocketConfig` cannot see each other's directory -/
+  socketDirOwnedByClient : Bool
   deriving DecidableEq, Repr
 
 /-- Behaviour of libraries the call graph passes through (not extracted; theorems hold for every value). -/
@@ -269,6 +273,10 @@ instance (P : Params) : Decidable P.GoodGoroutines := by unfold Params.GoodGorou
 instance (P : Params) : Decidable P.Good := by unfold Params.Good; exact inferInstance
 instance (P : Params) : Decidable P.GoodKill := by unfold Params.GoodKill; exact inferInstance
 
+/-- is the directory `Kill` removes the one THIS client created?  (`sharedCfg`: another client was configured with the same
+`UnixSocketConfig` pointer and started later) -/
+def killRemovesOwnDir (P : Params) (sharedCfg : Bool) : Bool := P.socketDirOwnedByClient || !sharedCfg
+
 /-- All edges present, all sites known. -/
 def goodParams : Params :=
   { killClosesClient := true, killWaitsForGoroutines := true, killRemovesSocketDir := true,
@@ -278,7 +286,8 @@ def goodParams : Params :=
     brokerCloseClosesListeners := true, serveDefersListenerClose := true,
     muxerCloseClosesWrappedListener := true, acceptAndServeClosesListener := true,
     acceptAndServeEndsOnBrokerDone := true, brokeredListenerIsRmListener := true,
-    listenerRemovesFile := true, goSites := knownSites, killCleanupWheneverRunner := true }
+    listenerRemovesFile := true, goSites := knownSites, killCleanupWheneverRunner := true,
+    socketDirOwnedByClient := true }
 
 /-! ### The `Close` call graph: which shutdown events a graceful `Kill` produces -/
 
